@@ -59,6 +59,7 @@ class NDesc(object):
         self.script = {}
         self.history = []       # event ids
         self.cb_slot = {}
+        self.on_final = []      # Machine.on_final (nodes may carry 'final' / 'on_final'; absent = False / [])
         self.models = 1         # number of models on the machine
         self.mhist = []         # model of every history item (empty = all on model 0)
         self.falsy = []         # per model: 0 truthy, 1 always falsy (__bool__), 2 falsy during its odd-numbered calls
@@ -130,6 +131,27 @@ class NDesc(object):
         for l in (self.prepare_event, self.before_sc, self.after_sc, self.finalize, self.on_exception):
             o += _l(l)
         return o + [int(bool(self.ignore)), int(self.queued)] + _l(self.initial)
+
+    # extended form (mirror of `ncfg4` in lean/Handlers/HC04N.lean): final flags and on_final lists
+    @classmethod
+    def enc_forest4(cls, nodes):
+        o = [len(nodes)]
+        for n in nodes:
+            o += [n['name']] + _l(n['on_enter']) + _l(n['on_exit'])
+            o += [0 if n['ignore'] is None else (2 if n['ignore'] else 1)]
+            o += _l(n['initial']) + cls.enc_events(n['local'])
+            o += [int(bool(n.get('final')))] + _l(n.get('on_final', []))
+            o += cls.enc_forest4(n['children'])
+        return o
+
+    def enc_cfg4(self):
+        o = self.enc_forest4(self.roots) + self.enc_events(self.events)
+        for l in (self.prepare_event, self.before_sc, self.after_sc, self.finalize, self.on_exception):
+            o += _l(l)
+        return o + [int(bool(self.ignore)), int(self.queued)] + _l(self.initial) + _l(self.on_final)
+
+    def enc_case4(self):
+        return self.enc_cfg4() + self.enc_script() + _l(self.history)
 
     def enc_script(self):
         o = [len(self.script)]
@@ -501,6 +523,26 @@ class NestedRun(object):
     def states_after(self):
         return self.views[0].states_after
 
+    @property
+    def counts(self):
+        return self.views[0].counts
+
+    @counts.setter
+    def counts(self, v):
+        self.views[0].counts = v
+
+    @property
+    def next_tag(self):
+        return self.views[0].next_tag
+
+    @next_tag.setter
+    def next_tag(self, v):
+        self.views[0].next_tag = v
+
+    def _trig(self, ev, mid):
+        # model 0 through the one-argument form: single-model subclasses override `trigger(ev)`
+        return self.trigger(ev) if mid == 0 else self.trigger(ev, mid)
+
     def close(self):
         if self.loop is not None:
             self.loop.close()
@@ -545,6 +587,10 @@ class NestedRun(object):
         path = tuple(pre) + (n['name'],)
         nd = {'name': (self.member[path] if self.enum else seg(n['name'])), 'on_enter': self.names(n['on_enter']), 'on_exit': self.names(n['on_exit']),
               'ignore_invalid_triggers': n['ignore']}
+        if n.get('final'):
+            nd['final'] = True
+        if n.get('on_final'):
+            nd['on_final'] = self.names(n['on_final'])
         local = [self.trans_def(ev, t, path) for ev, ts in n['local'] for t in ts]
         if local:
             nd['transitions'] = local
@@ -571,6 +617,8 @@ class NestedRun(object):
                   before_state_change=self.names(d.before_sc), after_state_change=self.names(d.after_sc),
                   prepare_event=self.names(d.prepare_event), finalize_event=self.names(d.finalize),
                   on_exception=self.names(d.on_exception))
+        if getattr(d, 'on_final', None):
+            kw['on_final'] = self.names(d.on_final)
         kw.update(extra)
         return cls(**kw)
 
@@ -609,13 +657,15 @@ class NestedRun(object):
         vw.items.append(('call', slot, cid, 0, tag, self.mask(mid)))
         return self.d.script.get((cid, k), ((), ('ret', True)))
 
-    def _end(self, mid, cid, out):
+    def _end(self, *a):
+        mid, cid, out = a if len(a) == 3 else (0,) + a      # (cid, out): single-model subclasses
         vw = self.views[mid]
         if out[0] == 'ret':
             vw.items.append(('done', cid, 0, int(bool(out[1])), 0))
             return out[1]
-        vw.items.append(('done', cid, 1, out[1], out[2]))
-        raise flat.make_exc(out[1], out[2])
+        exc = flat.make_exc(out[1], out[2])
+        vw.items.append(('done', cid, 1) + flat.canon_exc(exc))     # builtin kinds are recorded canonically
+        raise exc
 
     def invoke(self, model, slot, cid, *args, **kwargs):
         mid = model._mid
@@ -625,7 +675,7 @@ class NestedRun(object):
             return self._ainvoke(mid, cid, cmds, out, nsusp)
         try:
             for c in cmds:
-                self.trigger(c[2], mid)
+                self._trig(c[2], mid)
         except BaseException as e:
             self.views[mid].items.append(('done', cid, 1) + flat.canon_exc(e))
             raise
@@ -709,7 +759,7 @@ class NestedRun(object):
                     if self.is_async:
                         self.loop.run_until_complete(self.atrigger(ev, mid))
                     else:
-                        self.trigger(ev, mid)
+                        self._trig(ev, mid)
                 except BaseException as e:
                     if isinstance(e, (common.MachineryError, KeyboardInterrupt, CaseTimeout)):
                         raise
